@@ -48,7 +48,7 @@ echo "demo: with-seed exit=$d1 (want !=0), without exit=$d2 (want 0)"
 rm -rf $M/seeddemo /tmp/se-$$.demo
 git -C $M apply $PATCH
 for p in "$@"; do
-  VERIF_REPO=$M /verif/vcheck run $p --tier ${TIER:-quick} > /tmp/se-$$.out 2>&1; rc=$?
+  VERIF_REPO=$M ${VCHECK:-/verif/vcheck} run $p --tier ${TIER:-quick} > /tmp/se-$$.out 2>&1; rc=$?
   echo "check $p tier=${TIER:-quick} exit=$rc viol_lines=$(grep -c '^VIOLATION' /tmp/se-$$.out) sigs: $(grep 'signature:' /tmp/se-$$.out | sed 's/^ *signature: //' | sort | uniq -c | sort -rn | head -3 | tr '\n' ';' | cut -c1-300)"
   grep SUMMARY /tmp/se-$$.out | cut -c1-180
 done
